@@ -68,6 +68,8 @@ def truth(v):
         return v.length > 0
     if isinstance(v, Record):
         return True
+    if hasattr(v, "hv_truth"):
+        return v.hv_truth()
     raise Unsupported(f"truthiness of {type(v).__name__}")
 
 
@@ -259,6 +261,9 @@ class Exec:
         self._loop_ordinal = 0
         self._paths = 0
         self.assumed: List[str] = []
+        self.classes: Dict[str, "ClassModel"] = {}
+        self.raised: List[Any] = []  # (pc, exception, where) of raising paths inside class-model calls
+        self.facts: List[Any] = []  # quantified facts introduced by assumed library contracts (hypotheses of every VC)
 
     # ------------------------------------------------------------------ helpers
     def feasible(self, pc: List[Any]) -> bool:
@@ -272,6 +277,8 @@ class Exec:
         s = z3.Solver()
         s.set("timeout", 2000)
         s.add(*[to_z3(c) for c in cs])
+        for f in self.facts:
+            s.add(f)
         return s.check() != z3.unsat
 
     def oblige(self, name: str, pc: List[Any], goal, note: str = "") -> None:
@@ -423,6 +430,9 @@ class Exec:
             if h:
                 h(self, pc, env, obj, target.attr, v)
                 return env
+            if hasattr(obj, "hv_setattr"):
+                obj.hv_setattr(self, target.attr, v, pc)
+                return env
             raise Unsupported(f"attribute assignment on {type(obj).__name__}")
         if isinstance(target, ast.Subscript):
             obj = self.eval(target.value, pc, env)
@@ -441,6 +451,9 @@ class Exec:
             h = self.methods.get("setitem:" + type(obj).__name__)
             if h:
                 h(self, pc, env, obj, idx, v)
+                return env
+            if hasattr(obj, "hv_setitem"):
+                obj.hv_setitem(self, idx, v, pc)
                 return env
             raise Unsupported(f"subscript assignment on {type(obj).__name__}")
         raise Unsupported(f"assignment target {type(target).__name__}")
@@ -504,7 +517,10 @@ class Exec:
     def eval_fork(self, node, pc, env) -> List[Tuple[List[Any], Dict[str, Any], Any]]:
         """Evaluate an expression; may fork (conditional expressions over non-mergeable values, raising calls)."""
         try:
-            return [(pc, env, self.eval(node, pc, env))]
+            v = self.eval(node, pc, env)
+            if isinstance(v, PathValues):
+                return [(pc + [c], env, x) for c, x in v.alts if self.feasible(pc + [c])]
+            return [(pc, env, v)]
         except _Fork as f:
             res = []
             for c, thunk in f.branches:
@@ -527,6 +543,8 @@ class Exec:
             return env[n.id]
         if n.id in self.consts:
             return self.consts[n.id]
+        if n.id in self.classes:
+            return self.classes[n.id]
         if n.id in ("True", "False", "None"):
             return {"True": True, "False": False, "None": None}[n.id]
         if n.id in _BUILTINS:
@@ -575,6 +593,8 @@ class Exec:
 
     def ex_UnaryOp(self, n, pc, env):
         v = self.eval(n.operand, pc, env)
+        if hasattr(v, "hv_unary"):
+            return v.hv_unary(self, n.op)
         if isinstance(n.op, ast.Not):
             return z_not(truth(v))
         if isinstance(n.op, ast.USub):
@@ -590,7 +610,21 @@ class Exec:
         raise Unsupported("unary op")
 
     def ex_BoolOp(self, n, pc, env):
-        vals = [self.eval(v, pc, env) for v in n.values]
+        vals = []
+        for v in n.values:
+            x = self.eval(v, pc, env)
+            vals.append(x)
+            # short-circuit on concrete operands (the remaining operands are not evaluated, as in Python)
+            try:
+                t = truth(x)
+            except Unsupported:
+                t = None
+            if isinstance(n.op, ast.And) and t is False:
+                return False if isinstance(x, bool) or len(vals) > 1 else x
+            if isinstance(n.op, ast.Or) and t is True:
+                if isinstance(x, bool) or is_sym(x):
+                    return True
+                return x
         # value semantics (`a or b` returning operands) only when used as boolean; enforce bool-ness
         ts = [truth(v) for v in vals]
         for v in vals:
@@ -611,6 +645,10 @@ class Exec:
         return z_and(*res)
 
     def compare(self, op, a, b):
+        if hasattr(a, "hv_compare"):
+            return a.hv_compare(self, op, b, False)
+        if hasattr(b, "hv_compare"):
+            return b.hv_compare(self, op, a, True)
         if isinstance(op, (ast.Is, ast.IsNot)):
             if b is None or a is None:
                 r = (a is None) and (b is None) if (a is None or b is None) and not (is_sym(a) or is_sym(b)) else None
@@ -666,6 +704,8 @@ class Exec:
         raise Unsupported("comparison operator")
 
     def contains(self, container, item):
+        if hasattr(container, "hv_contains"):
+            return container.hv_contains(self, item)
         if isinstance(container, (list, tuple, set, frozenset)):
             if not is_sym(item) and all(not is_sym(c) and not isinstance(c, EnumVal) for c in container) and not isinstance(item, EnumVal):
                 return item in container
@@ -690,6 +730,10 @@ class Exec:
         return self.binop(n.op, a, b, pc, n)
 
     def binop(self, op, a, b, pc, n=None):
+        if hasattr(a, "hv_binop"):
+            return a.hv_binop(self, op, b, False, pc)
+        if hasattr(b, "hv_binop"):
+            return b.hv_binop(self, op, a, True, pc)
         if isinstance(a, bool) and not isinstance(b, bool) and not (is_sym(b) and z3.is_bool(b)):
             a = int(a)
         if isinstance(b, bool) and not isinstance(a, bool) and not (is_sym(a) and z3.is_bool(a)):
@@ -815,6 +859,8 @@ class Exec:
         h = self.methods.get("getitem:" + type(obj).__name__)
         if h:
             return h(self, pc, obj, idx, n)
+        if hasattr(obj, "hv_getitem"):
+            return obj.hv_getitem(self, idx, pc)
         raise Unsupported(f"subscript on {type(obj).__name__}")
 
     def ex_Attribute(self, n, pc, env):
@@ -829,6 +875,10 @@ class Exec:
             return obj.value
         if isinstance(obj, Namespace):
             return obj.get(n.attr)
+        if hasattr(obj, "hv_getattr"):
+            r = obj.hv_getattr(self, n.attr, pc)
+            if r is not NotImplemented:
+                return r
         return BoundMethod(obj, n.attr)
 
     def ex_Lambda(self, n, pc, env):
@@ -863,6 +913,10 @@ class Exec:
             return self.call_method(f.obj, f.attr, args, kwargs, pc, env, n)
         if isinstance(f, RecordCtor):
             return f.make(args, kwargs)
+        if isinstance(f, ClassModel):
+            return f.instantiate(self, args, kwargs, pc)
+        if isinstance(f, Record) and f.cls in self.classes:
+            return self.classes[f.cls].call_method(self, f, "__call__", args, kwargs, pc)
         if callable(f) and getattr(f, "_hv_intrinsic", False):
             return f(self, pc, env, args, kwargs)
         raise Unsupported(f"call of {type(f).__name__} at line {getattr(n, 'lineno', '?')}")
@@ -908,6 +962,12 @@ class Exec:
             k2 = f"{obj.cls}.{attr}"
             if k2 in self.methods:
                 return self.methods[k2](self, pc, env, obj, args, kwargs)
+            if obj.cls in self.classes and self.classes[obj.cls].find(self, attr) is not None:
+                return self.classes[obj.cls].call_method(self, obj, attr, args, kwargs, pc)
+        if hasattr(obj, "hv_call_method"):
+            r = obj.hv_call_method(self, attr, args, kwargs, pc, env)
+            if r is not NotImplemented:
+                return r
         if isinstance(obj, SymList):
             if attr == "append":
                 obj.append(args[0])
@@ -1205,6 +1265,7 @@ _BUILTINS: Dict[str, Callable] = {
     "list": _b_list,
     "set": _b_set,
     "str": _b_str,
+    "object": lambda ex, pc, args, kw: (_ for _ in ()).throw(Unsupported("object()")),
 }
 
 
@@ -1341,3 +1402,66 @@ def inline_function(fn_node: ast.FunctionDef, on_raise: Optional[Callable] = Non
         return res
 
     return _call
+
+
+class ClassModel:
+    """A class of the repository, by its AST: instantiation runs __init__ symbolically on a fresh Record; method calls run
+    the method body (looked up through the bases that are registered in ex.classes)."""
+
+    def __init__(self, name: str, node: ast.ClassDef):
+        self.name = name
+        self.node = node
+        self.methods = {st.name: st for st in node.body if isinstance(st, ast.FunctionDef)}
+        self.bases = [b.id for b in node.bases if isinstance(b, ast.Name)]
+
+    def __deepcopy__(self, memo):
+        return self
+
+    def find(self, ex: "Exec", meth: str):
+        if meth in self.methods:
+            return self.methods[meth]
+        for b in self.bases:
+            if b in ex.classes:
+                r = ex.classes[b].find(ex, meth)
+                if r is not None:
+                    return r
+        return None
+
+    def instantiate(self, ex: "Exec", args, kwargs, pc):
+        obj = Record(self.name, {})
+        init = self.find(ex, "__init__")
+        if init is not None:
+            self._run(ex, init, obj, args, kwargs, pc)
+        return obj
+
+    def call_method(self, ex: "Exec", obj, meth, args, kwargs, pc):
+        fn = self.find(ex, meth)
+        if fn is None:
+            raise Unsupported(f"{self.name}.{meth} not found")
+        return self._run(ex, fn, obj, args, kwargs, pc)
+
+    def _run(self, ex: "Exec", fn, obj, args, kwargs, pc):
+        names = [p.arg for p in fn.args.posonlyargs + fn.args.args]
+        a = {names[0]: obj}
+        for nm, v in zip(names[1:], args):
+            a[nm] = v
+        a.update(kwargs)
+        saved = ex._loop_ordinal
+        outs = ex.run_function(fn, a, pc)
+        ex._loop_ordinal = saved
+        rets = [o for o in outs if o.kind == "ret"]
+        for o in outs:
+            if o.kind == "raise":
+                ex.raised.append((o.pc, o.exc, f"{self.name}.{fn.name}"))
+        if not rets:
+            raise Unsupported(f"{self.name}.{fn.name} never returns")
+        if len(rets) == 1:
+            return rets[0].value
+        return PathValues([(z_and(*o.pc[len(pc):]), o.value) for o in rets])
+
+
+class PathValues:
+    """Several (condition, value) alternatives of non-mergeable values (e.g. data frames) returned by a callee."""
+
+    def __init__(self, alts):
+        self.alts = alts
